@@ -5,7 +5,7 @@
 #ifndef BITSET_MODEL_H
 #define BITSET_MODEL_H
 #include <stdint.h>
-namespace bm {
+namespace bsm {
 using u64 = uint64_t;
 // value of the character at index idx (idx < sn <= SMAX) read as a bit: zero -> 0, anything else (i.e. one) -> 1;
 // the index is compared against every constant position
@@ -74,5 +74,5 @@ inline bool str_nonpal(C const* s, u64 sn, u64 pos, u64 rlen, C zero)
     }
     return r;
 }
-} // namespace bm
+} // namespace bsm
 #endif
